@@ -238,6 +238,7 @@ class Impl:
     def op_spec_gfsc(self, f, *a): return self._spec(f)
     def op_spec_gfc(self, f, *a): return self._spec(f)
     def op_spec_gdl1(self, f, *a): return self._spec(f)
+    def op_spec_agfc(self, f, *a): return self._spec(f)
     def op_spec_gdl2(self, f, *a): return self._spec(f)
     def op_spec_gdc(self, f, *a): return self._spec(f)
     def op_spec_subg(self, f, *a): return self._spec(f)
@@ -929,6 +930,7 @@ def example_program(c):
     if c["func"] == "wc_gradient_descent_contraction": spec = ["spec.gdc f0 %s %d" % (fr(c["args"]["gamma"]), c["args"]["n"])]
     if c["func"] == "wc_proximal_gradient": spec = ["spec.pg f0 f1 f2 %s %d" % (fr(c["args"]["gamma"]), c["args"]["n"])]
     if c["func"] == "wc_gradient_flow_strongly_convex": spec = ["spec.gfsc f0"]
+    if c["func"] == "wc_accelerated_gradient_flow_convex": spec = ["spec.agfc f0 %s" % fr(c["args"]["t"])]
     if c["func"] == "wc_gradient_descent_lyapunov_2": spec = ["spec.gdl2 f0 %s %s %d" % (fr(c["args"]["L"]), fr(c["args"]["gamma"]), c["args"]["n"])]
     if c["func"] == "wc_gradient_flow_convex": spec = ["spec.gfc f0 %s" % fr(c["args"]["t"])]
     if c["func"] == "wc_gradient_descent_lyapunov_1": spec = ["spec.gdl1 f0 %s %s %d" % (fr(c["args"]["L"]), fr(c["args"]["gamma"]), c["args"]["n"])]
@@ -950,6 +952,9 @@ def gen_methods(seed):
         L = rnd.choice([1, 2, 0.5, 4, 1.7])
         c = dict(module="PEPit.examples.potential_functions.gradient_descent_lyapunov_1", func="wc_gradient_descent_lyapunov_1",
                  args=dict(L=L, gamma=rnd.choice([1 / L, 1 / L, 0.5 / L, 1]), n=rnd.randint(0, 12)))
+    elif seed % 32 == 23:
+        c = dict(module="PEPit.examples.continuous_time_models.accelerated_gradient_flow_convex", func="wc_accelerated_gradient_flow_convex",
+                 args=dict(t=rnd.choice([3.4, 1, 0.5, 10, 2, 7.25])))
     elif seed % 16 == 11:
         L = rnd.choice([1, 2, 0.5, 4, 1.7])
         c = dict(module="PEPit.examples.potential_functions.gradient_descent_lyapunov_2", func="wc_gradient_descent_lyapunov_2",
@@ -989,13 +994,20 @@ def _exact_double(fr):
     while n and n % 2 == 0: n //= 2
     return n.bit_length() <= 26
 def dyadic_program(lines):
-    """every scalar literal of the program is a dyadic rational (exactly representable input)"""
+    """every scalar literal of the program is a dyadic rational with at most 26 significant bits (exactly representable
+    input whose pairwise products are exact too).  A traced example that computes `-3 / t` or `1 / L` in Python hands the
+    library a 53-bit literal: its products round, cancellations leave residues that are tiny dyadics themselves, so such a
+    program is compared numerically from the start"""
     for l in lines:
+        if l.startswith("note ") or l.startswith("expect.") or l.startswith("trace.error"): continue
         for t in l.split()[1:]:
-            m = re.fullmatch(r"-?\d+/(\d+)", t)
+            m = re.fullmatch(r"(-?\d+)/(\d+)", t)
             if m:
-                d = int(m.group(1))
+                d = int(m.group(2))
                 if d & (d - 1): return False
+                if not _exact_double(Fr(int(m.group(1)), d)): return False
+            elif re.fullmatch(r"-?\d{9,}", t):
+                if not _exact_double(Fr(int(t))): return False
     return True
 
 
